@@ -611,6 +611,13 @@ def extra_guards(facts, allowed, body):
             continue
         if f in body.presence_assertions():
             continue
+        # "the slot looked up in one of the graph's tables exists": every slot of the three tables is filled by the
+        # constructor and ids beyond the capacity are outside the documented preconditions
+        if f[0] == "in" and f[2] == frozenset(["Some"]) and strip_load(f[1])[0] == "discr":
+            o = strip_load(strip_load(f[1])[1])
+            if o[0] == "opt" and strip_load(o[1])[0] == "elem" and strip_load(strip_load(o[1])[1])[0] == "field" and \
+                    strip_load(strip_load(o[1])[1])[2] in ("Sodg::vertices", "Sodg::stores", "Sodg::branches"):
+                continue
         out.append(show(f, body))
     return out
 
@@ -864,6 +871,18 @@ def gc6(F, R, parts="abcd"):
             evs, raw, col = state_events(F, ctor, stop_names=())
             R.analysed(ctor, len(raw))
             ins = [e for e in evs if e.kind == "map_call" and e.field == "Sodg::branches" and e.op == "insert"]
+            # the same on a table built in a local before it becomes the `branches` field of the graph
+            brv = None
+            for site, kind, s in ctor.sites():
+                if kind == "stmt" and s["k"] == "assign" and s["rv"]["k"] == "aggregate" and s["rv"].get("adt") == "Sodg":
+                    brv = (site, strip_load(dict(ctor.expr_rvalue(s["rv"], site)[3]).get("branches", ("?",))))
+            if brv is not None:
+                for e in raw:
+                    if e.kind == "call" and e.krate == "emap" and e.name == "insert" and e.args and e.body is ctor and \
+                            strip_sites(strip_load(e.args[0])) == strip_sites(brv[1]) and (ctor.dominates(e.site, brv[0]) or e.uncond):
+                        ne = Ev("map_call", e.body, e.site, e.facts, e.chain, raw=e, field="Sodg::branches", graph=None, op="insert", args=e.args[1:])
+                        ne.uncond = e.uncond
+                        ins.append(ne)
             keys = set()
             for e in ins:
                 k = strip_load(e.args[0]) if e.args else None
